@@ -228,6 +228,13 @@ func specialHandler(display string) *special {
 		}
 	}
 	switch display {
+	case "k8s.io/client-go/util/retry.RetryOnConflict", "k8s.io/client-go/util/retry.OnError":
+		return &special{run: runRetry, assigns: func(fr *Frame, c *ssa.CallCommon, out map[string]bool) (map[string]bool, bool) {
+			if mc := retryClosure(c); mc != nil {
+				return fr.bodyAssigns(mc.Fn.(*ssa.Function), out, 0)
+			}
+			return out, true
+		}}
 	case "fmt.Errorf":
 		return &special{run: runErrorf, assigns: noAssigns}
 	case "errors.New":
@@ -440,4 +447,78 @@ func runErrorsAs(fr *Frame, in ssa.Instruction, c *ssa.CallCommon, ci calleeInfo
 	old := ex.load(fr.curMem, tt, target.T)
 	ex.store(fr.curMem, tt, target.T, ite(res, nv, old))
 	return []Val{{T: res, S: SBool, G: types.Typ[types.Bool]}}
+}
+
+// retryClosure: the function literal handed to retry.RetryOnConflict / retry.OnError (last argument), if it is one.
+func retryClosure(c *ssa.CallCommon) *ssa.MakeClosure {
+	if len(c.Args) == 0 {
+		return nil
+	}
+	v := c.Args[len(c.Args)-1]
+	for {
+		switch x := v.(type) {
+		case *ssa.MakeClosure:
+			return x
+		case *ssa.ChangeType:
+			v = x.X
+			continue
+		}
+		return nil
+	}
+}
+
+// runRetry models retry.RetryOnConflict(backoff, fn): fn runs once in the current state and then possibly again, any
+// number of times, each further run starting from a state in which everything fn can assign has an arbitrary value
+// (the effect of the earlier runs). Obligations inside fn are therefore generated twice: for the first run and for
+// "some later run". The call returns the result of the last run.
+func runRetry(fr *Frame, in ssa.Instruction, c *ssa.CallCommon, ci calleeInfo, args []Val) []Val {
+	ex := fr.ex
+	mc := retryClosure(c)
+	if mc == nil {
+		return fr.unknownCall(ci, args)
+	}
+	fn := mc.Fn.(*ssa.Function)
+	r1 := fr.inlineClosure(in, mc, nil)
+	if len(r1) != 1 {
+		return fr.unknownCall(ci, args)
+	}
+	mem1, reach1 := fr.curMem, fr.curReach
+	again := ex.fresh("retry_again", SBool)
+	ex.assume(implies(again, fmt.Sprintf("(not (= %s (mkI 0 0)))", r1[0].T)), reach1)
+	// state before a later run
+	memK := mem1.clone()
+	assigned, all := fr.bodyAssigns(fn, map[string]bool{}, 0)
+	if all {
+		memK = ex.newMem()
+		memK.lost = true
+	} else {
+		if assigned["*lib"] {
+			memK = ex.havocLib(memK)
+			delete(assigned, "*lib")
+			delete(assigned, "*mem")
+			for k := range assigned {
+				if md := ex.S.Models[strings.TrimPrefix(k, "F_")]; !(md != nil && md.Ghost) {
+					delete(assigned, k)
+				}
+			}
+		}
+		if assigned["*mem"] {
+			ex.havocGoMemory(memK)
+			delete(assigned, "*mem")
+		}
+		for _, k := range sortedKeys(assigned) {
+			ex.memHavoc(memK, k)
+		}
+	}
+	fr.curMem = memK
+	fr.curReach = ex.define("reach_retry", SBool, and(reach1, again))
+	rK := fr.inlineClosure(in, mc, nil)
+	memAfterK := fr.curMem
+	fr.curReach = reach1
+	fr.curMem = ex.mergeMem([]*MemState{memAfterK, mem1}, []string{again, not(again)})
+	if len(rK) != 1 {
+		return fr.unknownCall(ci, args)
+	}
+	t := ci.sig.Results().At(0).Type()
+	return []Val{{T: ex.define("retry_err", SIface, ite(again, rK[0].T, r1[0].T)), S: SIface, G: t}}
 }
